@@ -182,6 +182,7 @@ def project_msg_xml(cls, root):
         m["carried"] = [leaf(c) for c in base]
     elif cls == "RunningOrderReplace":
         m["carried"] = [child(c) for c in base]
+        m["stok"] = container_tok(base)
     elif cls == "RunningOrderEnd":
         m["carried"] = [leaf(base)]
     elif cls == "ReadyToAir":
